@@ -7,7 +7,8 @@ interleavings of source changes and queue processing.
 * `state_correct_partial`  at quiescence the contents equal the transformation of the current inputs,
                            for every history and schedule that respects `DisjointAtApply` (`runOK`)
 * `StateCorrect`, `key_move_witness`   the statement without that hypothesis is false (finding F6)
-* `state_correct_one_to_one`           unconditional for one-to-one collections (`NewCollection`)
+* `state_correct_key_preserving`       unconditional for KEY-PRESERVING one-to-one collections (output key = input key);
+                                       `one_to_one_by_value_witness`: a one-to-one collection keyed by a field of the input has F6 too
 * `stream_wellformed`, `late_subscriber_accepted`   the emitted stream, for early and late subscribers
 * `deps_complete`, `changed_result_is_recomputed`   dependency tracking
 -/
@@ -231,7 +232,7 @@ theorem changed_result_is_recomputed (T : Transform) (sec : List Obj) (hs : SrcO
     apply mem_changedInputKeys_of_hit
     exact ⟨e, he, by simp [hl, hc]⟩
 
-/-! ## one-to-one collections need no hypothesis -/
+/-! ## key-preserving one-to-one collections need no hypothesis -/
 
 /-- every recorded mapping of a one-to-one collection is (at most) the input's own key -/
 def OneToOne (c : Col) : Prop := ∀ p ∈ c.mappings, ∀ k ∈ p.2, k = p.1
@@ -249,17 +250,17 @@ theorem mem_erase {α : Type} {m : AMap α} {k : Key} {p : Key × α} (h : p ∈
       · subst h; simp
       · exact List.mem_cons_of_mem _ (ih h)
 
-theorem newKeys_single {T : Transform} (hT : T.multi = false) (sec : List Obj) (i : Obj) {k : Key}
+theorem newKeys_single {T : Transform} (hT : T.multi = false ∧ T.byVal = false) (sec : List Obj) (i : Obj) {k : Key}
     (h : k ∈ newKeysOf T sec i) : k = i.key := by
   obtain ⟨v, hv⟩ := mem_newKeysOf.1 h
-  simp only [transform, outKeys, hT] at hv
+  simp only [transform, outKeys, hT.1, hT.2] at hv
   split at hv
   · simp at hv
   · simp only [Bool.false_eq_true, if_false, List.map_cons, List.map_nil, List.mem_singleton,
       Prod.mk.injEq] at hv
     exact hv.1
 
-theorem oneToOne_item {T : Transform} (hT : T.multi = false) (sec : List Obj) {c : Col}
+theorem oneToOne_item {T : Transform} (hT : T.multi = false ∧ T.byVal = false) (sec : List Obj) {c : Col}
     (h : OneToOne c) (it : Item) :
     itemOK T sec c it = true ∧ OneToOne (applyItem T sec c it) := by
   cases it with
@@ -286,7 +287,7 @@ theorem oneToOne_item {T : Transform} (hT : T.multi = false) (sec : List Obj) {c
       · subst hp; intro k hk; exact newKeys_single hT sec i hk
       · exact h p (mem_erase hp)
 
-theorem oneToOne_items {T : Transform} (hT : T.multi = false) (sec : List Obj) (its : List Item) {c : Col}
+theorem oneToOne_items {T : Transform} (hT : T.multi = false ∧ T.byVal = false) (sec : List Obj) (its : List Item) {c : Col}
     (h : OneToOne c) : itemsOK T sec c its = true ∧ OneToOne (applyItems T sec c its) := by
   induction its generalizing c with
   | nil => exact ⟨rfl, h⟩
@@ -295,7 +296,7 @@ theorem oneToOne_items {T : Transform} (hT : T.multi = false) (sec : List Obj) (
     obtain ⟨h3, h4⟩ := ih h2
     exact ⟨by simp [itemsOK, h1, h3], by simpa [applyItems] using h4⟩
 
-theorem runOK_of_single {T : Transform} (hT : T.multi = false) (s : Sys) (h : OneToOne s.col)
+theorem runOK_of_single {T : Transform} (hT : T.multi = false ∧ T.byVal = false) (s : Sys) (h : OneToOne s.col)
     (run : List Act) : runOK T s run = true := by
   induction run generalizing s with
   | nil => rfl
@@ -305,17 +306,36 @@ theorem runOK_of_single {T : Transform} (hT : T.multi = false) (s : Sys) (h : On
     apply ih
     cases a <;> simp only [step] <;> first | exact h | exact h2
 
-/-- **state_correct for one-to-one collections** (`krt.NewCollection`): no hypothesis at all - for
+/-- **state_correct for key-preserving one-to-one collections** (`krt.NewCollection` whose output key is the
+    input's key; NOT every `NewCollection`: see `one_to_one_by_value_witness`): no hypothesis at all - for
     every history and every schedule, at quiescence the contents equal the transformation of the
     current inputs, and the stream is well formed. -/
-theorem state_correct_one_to_one (T : Transform) (hT : T.multi = false) (run : List Act)
+theorem state_correct_key_preserving (T : Transform) (hT : T.multi = false ∧ T.byVal = false) (run : List Act)
     (hq : (exec T {} run).quiescent = true) :
     MapEq (exec T {} run).col.outputs (specContents T (exec T {} run).prim (exec T {} run).sec) :=
   state_correct_partial T run (runOK_of_single hT {} (by intro p hp; simp at hp) run) hq
 
-theorem stream_wellformed_one_to_one (T : Transform) (hT : T.multi = false) (run : List Act) :
+theorem stream_wellformed_key_preserving (T : Transform) (hT : T.multi = false ∧ T.byVal = false) (run : List Act) :
     WellFormed (exec T {} run).out ∧ MapEq (replay (exec T {} run).out) (exec T {} run).col.outputs :=
   stream_wellformed T run (runOK_of_single hT {} (by intro p hp; simp at hp) run)
+
+/-- A one-to-one collection whose output key is a FIELD of the input (`val/<i.val>`) has finding F6 as well:
+    `b` takes the value `g` (new parent applied first), then `a` gives it up: the queues are empty, the
+    inputs still produce `val/g` (from `b`), the unique-key contract holds for the final inputs, and the
+    collection is empty. Confirmed on the real `krt.NewCollection` (corpus `krt.f6-one-to-one-by-value.ops`). -/
+def byValT : Transform := { byVal := true }
+def byValRun : List Act :=
+  [ .envP [.set { ns := "n1", name := "a", val := "g" }], .envP [.set { ns := "n1", name := "b", val := "x" }],
+    .procP, .procP,
+    .envP [.set { ns := "n1", name := "b", val := "g" }], .envP [.set { ns := "n1", name := "a", val := "y" }],
+    .procP, .procP ]
+
+theorem one_to_one_by_value_witness :
+    (exec byValT {} byValRun).quiescent = true ∧
+    uniqueKeysB byValT (exec byValT {} byValRun).prim (exec byValT {} byValRun).sec = true ∧
+    lookup (exec byValT {} byValRun).col.outputs "val/g" = none ∧
+    (lookup (specContents byValT (exec byValT {} byValRun).prim (exec byValT {} byValRun).sec) "val/g").isSome = true ∧
+    runOK byValT {} byValRun = false := by decide
 
 /-! ## non-vacuity: a non-trivial run that satisfies the hypotheses -/
 
